@@ -3,7 +3,7 @@
 export GOFLAGS=-mod=mod GOPROXY=off GOSUMDB=off GOTOOLCHAIN=local
 set -e
 cd /verif && go build -o bin/simgen ./cmd/simgen
-rm -rf /dev/shm/sg && ./bin/simgen -out /dev/shm/sg -mount internal/verifsim/simrt=sim/simrt,internal/verifsim/hlib=sim/hlib,internal/verifsim/ref/refformat=sim/ref/refformat,internal/verifsim/h1=sim/harness/h1,internal/counter=sim/shims/counter
+rm -rf /dev/shm/sg && ./bin/simgen -out /dev/shm/sg -mount internal/verifsim/simrt=sim/simrt,internal/verifsim/hlib=sim/hlib,internal/verifsim/ref/refformat=sim/ref/refformat,internal/verifsim/ref/refcal=sim/ref/refcal,internal/verifsim/ref/refstack=sim/ref/refstack,internal/verifsim/h1=sim/harness/h1,internal/counter=sim/shims/counter
 cd /repo && go build -overlay /dev/shm/sg/overlay.json -o /dev/shm/sg/h1 golang.org/x/telemetry/internal/verifsim/h1
 cd /verif
 /dev/shm/sg/h1 "$@" | python3 -c "
